@@ -431,3 +431,64 @@ fn run(ctx: &mut Ctx, si: usize, case: u64) {
         }
     }
 }
+
+/// Judge the decode of arbitrary record bytes (libFuzzer target `decode`): whatever the bytes are, a
+/// successful parse must expose exactly the reference decode and consume exactly the ABI size; a complete
+/// record may only be refused by the version check of VerDef/VerNeed.
+pub fn decode_bytes(ctx: &mut Ctx, ty: u64, enc: Enc, any: bool, bytes: &[u8]) {
+    fn one<P: ParseAt + Fields, E: EndianParse>(ctx: &mut Ctx, e: E, enc: Enc, bytes: &[u8]) {
+        let size = size_of(P::ST, enc.c64);
+        let class = class_of(enc);
+        ctx.eval();
+        let mut off = 0usize;
+        let r = P::parse_at(e, class, &mut off, bytes);
+        match (Rec::decode(P::ST, enc, bytes, 0), r) {
+            (Some(rec), Ok(v)) => {
+                if let Some(m) = mismatch(&v.fields(), &rec) {
+                    let fld = mismatch_field(&v.fields(), &rec).unwrap_or("?");
+                    ctx.violation(&format!("{}:{}:{}", P::NAME, enc.name(), fld), format!("{}::parse_at ({}) of {}: {}", P::NAME, enc.name(), hex_trunc(&bytes[..size], 80), m));
+                } else if off != size {
+                    ctx.violation(&format!("{}:{}:consumed", P::NAME, enc.name()), format!("{}::parse_at ({}) of {} consumed {} bytes, ABI size is {}", P::NAME, enc.name(), hex_trunc(&bytes[..size], 80), off, size));
+                }
+            }
+            (Some(rec), Err(e)) => {
+                let version_refusal = (P::ST == St::Verdef && rec.get("vd_version") != 1) || (P::ST == St::Verneed && rec.get("vn_version") != 1);
+                if !version_refusal {
+                    ctx.violation(&format!("{}:{}:error", P::NAME, enc.name()), format!("{}::parse_at ({}) of a complete record {} failed: {e:?}", P::NAME, enc.name(), hex_trunc(&bytes[..size], 80)));
+                }
+            }
+            (None, Ok(_)) => {
+                ctx.violation(&format!("{}:{}:parsed-short-buffer", P::NAME, enc.name()), format!("{}::parse_at ({}) succeeded on {} bytes, the structure has {}", P::NAME, enc.name(), bytes.len(), size));
+            }
+            (None, Err(_)) => {}
+        }
+    }
+    fn by_ty<E: EndianParse>(ctx: &mut Ctx, ty: u64, e: E, enc: Enc, b: &[u8]) {
+        match ty % 17 {
+            0 => one::<SectionHeader, E>(ctx, e, enc, b),
+            1 => one::<ProgramHeader, E>(ctx, e, enc, b),
+            2 => one::<Symbol, E>(ctx, e, enc, b),
+            3 => one::<Rel, E>(ctx, e, enc, b),
+            4 => one::<Rela, E>(ctx, e, enc, b),
+            5 => one::<Dyn, E>(ctx, e, enc, b),
+            6 => one::<CompressionHeader, E>(ctx, e, enc, b),
+            7 => one::<SysVHashHeader, E>(ctx, e, enc, b),
+            8 => one::<GnuHashHeader, E>(ctx, e, enc, b),
+            9 => one::<VersionIndex, E>(ctx, e, enc, b),
+            10 => one::<VerDef, E>(ctx, e, enc, b),
+            11 => one::<VerDefAux, E>(ctx, e, enc, b),
+            12 => one::<VerNeed, E>(ctx, e, enc, b),
+            13 => one::<VerNeedAux, E>(ctx, e, enc, b),
+            14 => one::<NoteGnuAbiTag, E>(ctx, e, enc, b),
+            15 => one::<u32, E>(ctx, e, enc, b),
+            _ => one::<u64, E>(ctx, e, enc, b),
+        }
+    }
+    ctx.set_input(bytes);
+    match (any, enc.big) {
+        (true, false) => by_ty(ctx, ty, AnyEndian::Little, enc, bytes),
+        (true, true) => by_ty(ctx, ty, AnyEndian::Big, enc, bytes),
+        (false, false) => by_ty(ctx, ty, LittleEndian, enc, bytes),
+        (false, true) => by_ty(ctx, ty, BigEndian, enc, bytes),
+    }
+}
